@@ -221,7 +221,17 @@ def rule_r34(chk, prog, paths):
         first = min([i for (i, n, c) in emits + pushes], default=None)
         texts = [t for (t, pol) in p.facts]
         by_id = any(f'{popv}.id in {repl}' in t for t in texts)
-        by_eq = any(t == f'{popv} in {repl}' for t in texts)
+        def mentions(t, what):
+            try:
+                e_ = ast.parse(t, mode='eval').body
+            except SyntaxError:
+                return False
+            return any(isinstance(x, ast.Compare) and unparse(x) == what
+                       for x in ast.walk(e_))
+
+        # "A or <popv in repl>" holding means: A held (the identity hit) or
+        # the structural lookup was made
+        by_eq = any(mentions(t, f'{popv} in {repl}') for t in texts)
         id_hit = any(t == f'{popv}.id in {repl}' and pol
                      for (t, pol) in p.facts)
         chk.check('C11.R4', where, f'{desc}: both lookups',
@@ -272,6 +282,8 @@ def rule_r34(chk, prog, paths):
             a = c.args[0]
             if isinstance(a, ast.Name) and a.id == popv:
                 continue
+            if isinstance(a, ast.Name) and a.id in rvars:
+                continue  # the value taken out of the map, inserted as given
             before = set(facts_before(p, i))
             # a freshly built node: must have been compared with the original
             ok = (f'{rebuilt} == {popv}', False) in before or (
@@ -292,7 +304,7 @@ def rule_r34(chk, prog, paths):
                           False, 'unrecognised emission', loc=m.loc(c))
         # a replacement sets the changed flag
         took = any((f'{popv}.id in {repl}' in t or t == f'{popv} in {repl}')
-                   and pol for (t, pol) in p.facts)
+                   and pol for (t, pol) in p.facts) or len(rvars) > 1
         if took:
             chk.check('C11.R3', where, f'{desc}: changed flag',
                       p.env.get(flag) is True,
